@@ -3,7 +3,11 @@
 use vstd::prelude::*;
 use vstd::std_specs::cmp::OrdSpec;
 use std::num::NonZeroU16;
-macro_rules! e { (Error :: $($t:tt)*) => { mk_error() }; }
+macro_rules! e {
+    (Error :: $($t:tt)*) => { mk_error() };
+    ($($err:tt)::+ { $($body:tt)* }) => { $($err)::+ { $($body)* } };
+    ($($err:tt)::+) => { $($err)::+ {} };
+}
 macro_rules! ensure { ($cond:expr, $($t:tt)*) => { if !$cond { return Err(e!($($t)*)); } }; }
 verus! {
 //@include shims/std_wide.rs
@@ -178,6 +182,80 @@ pub proof fn lemma_dg_roundtrip(d: Datagrams, got: Datagrams)  // [C10]
     }
 }
 
+// ================= RelayToClientMsg (client-side decoder): totality and version gating =================
+//@item iroh-relay/src/http.rs enum ProtocolVersion derive=Clone,Copy,PartialEq,Eq,Structural
+// derived PartialOrd: declaration order (V1 < V2)
+pub open spec fn ver_rank(v: ProtocolVersion) -> int { match v { ProtocolVersion::V1 => 1, ProtocolVersion::V2 => 2 } }
+impl PartialOrd for ProtocolVersion { #[verifier::external_body] fn partial_cmp(&self, o: &Self) -> Option<core::cmp::Ordering> { unimplemented!() } }
+impl vstd::std_specs::cmp::PartialOrdSpecImpl for ProtocolVersion {
+    open spec fn obeys_partial_cmp_spec() -> bool { true }
+    open spec fn partial_cmp_spec(&self, o: &Self) -> Option<core::cmp::Ordering> {
+        if ver_rank(*self) < ver_rank(*o) { Some(core::cmp::Ordering::Less) } else if ver_rank(*self) == ver_rank(*o) { Some(core::cmp::Ordering::Equal) } else { Some(core::cmp::Ordering::Greater) }
+    }
+}
+pub struct Duration { pub ms: u64 }
+impl Duration {
+    #[verifier::external_body]
+    pub fn from_millis(ms: u64) -> (r: Duration) ensures r.ms == ms { unimplemented!() }
+}
+pub struct Utf8Error;
+impl From<Utf8Error> for Error { #[verifier::external_body] fn from(e: Utf8Error) -> Error { unimplemented!() } }
+pub struct StrRef<'a> { pub b: &'a [u8] }
+impl<'a> StrRef<'a> { #[verifier::external_body] pub fn to_owned(&self) -> String { unimplemented!() } }
+// std::str::from_utf8 (rule R9-style redirect: its &str result is only turned into a String)
+#[verifier::external_body]
+pub fn str_from_utf8<'a>(b: &'a [u8]) -> (r: Result<StrRef<'a>, Utf8Error>) { unimplemented!() }
+#[verifier::external_type_specification]
+#[verifier::external_body]
+pub struct ExTryFromSliceError(core::array::TryFromSliceError);
+#[verifier::external_body]
+pub fn slice_try_into_arr<const N: usize>(s: &[u8]) -> (r: Result<[u8; N], core::array::TryFromSliceError>)
+    ensures r is Ok <==> s@.len() == N, r matches Ok(a) ==> a@ == s@
+{ s.try_into() }
+#[verifier::external_body]
+pub fn u32_from_be_bytes(b: [u8; 4]) -> u32 { u32::from_be_bytes(b) }
+#[verifier::external_body]
+pub fn bytes_suffix(b: &Bytes, n: usize) -> (o: &[u8])
+    requires n <= b@.len()
+    ensures o@ == b@.subrange(n as int, b@.len() as int)
+{ unimplemented!() }
+//@item iroh-relay/src/protos/relay.rs enum Status
+//@item iroh-relay/src/protos/relay.rs enum RelayToClientMsg
+impl Status {
+//@fn iroh-relay/src/protos/relay.rs Status::write_to props=C10 ret=r
+//@| ensures r.written() == dst.written().push(match *self { Status::Healthy => 0u8, Status::SameEndpointIdConnected => 1u8, Status::RateLimited => 2u8, Status::Unknown(d) => d })
+//@end
+//@fn iroh-relay/src/protos/relay.rs Status::from_bytes props=C10 ret=r
+//@| ensures
+//@|     r is Err <==> bytes@.len() == 0,
+//@|     r matches Ok(s) ==> s == (match bytes@[0] { 0u8 => Status::Healthy, 1u8 => Status::SameEndpointIdConnected, 2u8 => Status::RateLimited, n => Status::Unknown(n) }),
+//@end
+}
+impl RelayToClientMsg {
+//@fn iroh-relay/src/protos/relay.rs RelayToClientMsg::from_bytes props=C10 ret=r
+//@| ensures
+//@|     // total (no panic for any bytes: every index / slice / conversion precondition is discharged), and version gating:
+//@|     r matches Ok(RelayToClientMsg::Health { .. }) ==> protocol_version == ProtocolVersion::V1,
+//@|     r matches Ok(RelayToClientMsg::Status(_)) ==> ver_rank(protocol_version) >= 2,
+//@|     (r matches Ok(m) && content@.len() >= 1 && content@[0] < 64) ==> content@.len() - 1 <= MAX_PACKET_SIZE,
+//@rwx R17 3
+//@- &content\[\.\.([A-Za-z0-9_:]+)\]
+//@+ bytes_prefix(&content, \1)
+//@rw R9 1
+//@- std::str::from_utf8(&content)?.to_owned()
+//@+ str_from_utf8(content.as_ref())?.to_owned()
+//@rwx R12 1
+//@- u32::from_be_bytes\(\s*content\[\.\.4\]\s*\.try_into\(\)
+//@+ u32_from_be_bytes(slice_try_into_arr::<4>(bytes_prefix(&content, 4))
+//@rwx R12 1
+//@- u32::from_be_bytes\(\s*content\[4\.\.\]\s*\.try_into\(\)
+//@+ u32_from_be_bytes(slice_try_into_arr::<4>(bytes_suffix(&content, 4))
+//@rwx R1 2
+//@- \.map_err\(\|_\| e!
+//@+ .map_err(|_w| e!
+//@end
+}
+
 // ================= ClientToRelayMsg =================
 pub open spec fn c2r_typ(m: ClientToRelayMsg) -> FrameType {
     match m {
@@ -198,6 +276,13 @@ impl ClientToRelayMsg {
 //@| ensures r == c2r_typ(*self), (r as u32) < 64
 //@end
 
+//@fn iroh-relay/src/protos/relay.rs ClientToRelayMsg::encoded_len props=C10 ret=r
+//@| requires *self matches ClientToRelayMsg::Datagrams { datagrams, .. } ==> datagrams.contents@.len() <= 0x1000_0000
+//@| ensures r == enc_c2r(*self).len()    // predicted length == actual length
+//@end
+    #[verifier::external_body]
+    pub fn to_bytes(&self) -> (r: BytesMut) ensures r@ == enc_c2r(*self) { unimplemented!() }   // write_to into an empty buffer (write_to is verified below)
+
 //@fn iroh-relay/src/protos/relay.rs ClientToRelayMsg::write_to props=C10 ret=r
 //@| ensures r.written() == dst.written() + enc_c2r(*self)
 //@rwx R17 2
@@ -209,6 +294,8 @@ impl ClientToRelayMsg {
 //@| ensures
 //@|     // what an accepted datagram/ping/pong frame with a canonical (one-byte) type decodes to
 //@|     (content@.len() >= 1 && content@[0] < 64) ==> (r matches Ok(m) ==> c2r_decodes(content@, m)),
+//@|     // total, and accepted exactly on these conditions (canonical one-byte frame type)
+//@|     (content@.len() >= 1 && content@[0] < 64) ==> (r is Ok <==> c2r_accepts(content@)),
 //@rwx R17 3
 //@- &content\[\.\.([A-Za-z0-9_:]+)\]
 //@+ bytes_prefix(&content, \1)
@@ -236,9 +323,56 @@ impl ClientToRelayMsg {
 //@| }
 //@end
 }
+pub struct BytesMut { pub b: Seq<u8> }
+impl View for BytesMut { type V = Seq<u8>; open spec fn view(&self) -> Seq<u8> { self.b } }
+impl BytesMut { #[verifier::external_body] pub fn freeze(self) -> (r: Bytes) ensures r@ == self@ { unimplemented!() } }
+
+// ---- the client's sink (client/conn.rs)
+pub struct AnyError;
+//@item iroh-relay/src/client/conn.rs enum SendError
+pub struct WsConn;
+pub uninterp spec fn sent_on_wire(b: Seq<u8>) -> bool;
+impl WsConn {
+    #[verifier::external_body]
+    pub fn start_send(&mut self, item: Bytes) -> (r: Result<(), AnyError>) ensures r is Ok ==> sent_on_wire(item@) { unimplemented!() }
+}
+pub struct Conn { pub conn: WsConn }
+impl Conn {
+//@fn iroh-relay/src/client/conn.rs Sink<ClientToRelayMsg>@Conn::start_send props=C10 ret=r
+//@| requires frame matches ClientToRelayMsg::Datagrams { datagrams, .. } ==> datagrams.contents@.len() <= 0x1000_0000
+//@| ensures
+//@|     // the sender-side limit: what goes on the wire is the encoding, within MAX_PACKET_SIZE and non-empty
+//@|     r is Ok ==> sent_on_wire(enc_c2r(frame)) && enc_c2r(frame).len() <= MAX_PACKET_SIZE
+//@|         && (frame matches ClientToRelayMsg::Datagrams { datagrams, .. } ==> datagrams.contents@.len() > 0),
+//@|     r matches Err(SendError::ExceedsMaxPacketSize { .. }) <==> enc_c2r(frame).len() > MAX_PACKET_SIZE,
+//@rw R7 1
+//@- mut self: Pin<&mut Self>
+//@+ &mut self
+//@rw R7 1
+//@- Pin::new(&mut self.conn)
+//@+ self.conn
+//@rw D5 1
+//@- Result<(), Self::Error>
+//@+ Result<(), SendError>
+//@rw A3 1
+//@- .map_err(Into::into)
+//@+ .map_err(|e: AnyError| -> (o: SendError) ensures o is StreamError { SendError::StreamError { source: e } })
+//@end
+}
 #[verifier::external_body]
 pub fn array8_as_slice(a: &[u8; 8]) -> (r: &[u8]) ensures r@ == a@ { &a[..] }
 
+pub open spec fn c2r_accepts(b: Seq<u8>) -> bool {
+    let body = b.subrange(1, b.len() as int);
+    let t = b[0] as u32;
+    &&& 1 + body.len() <= MAX_PACKET_SIZE
+    &&& if t == tag_of(FrameType::ClientToRelayDatagram) || t == tag_of(FrameType::ClientToRelayDatagramBatch) {
+            body.len() >= 32 && valid_point(body.subrange(0, 32))
+                && body.len() - 32 >= (if t == tag_of(FrameType::ClientToRelayDatagramBatch) { 3int } else { 1 })
+        } else if t == tag_of(FrameType::Ping) || t == tag_of(FrameType::Pong) {
+            body.len() == 8
+        } else { false }
+}
 pub open spec fn c2r_decodes(b: Seq<u8>, m: ClientToRelayMsg) -> bool {
     let body = b.subrange(1, b.len() as int);
     &&& (c2r_typ(m) as u32) == b[0] as u32 || (m is Datagrams && ((b[0] as u32 == FrameType::ClientToRelayDatagram as u32) || (b[0] as u32 == FrameType::ClientToRelayDatagramBatch as u32)))
@@ -252,6 +386,66 @@ pub open spec fn c2r_decodes(b: Seq<u8>, m: ClientToRelayMsg) -> bool {
             &&& datagrams.ecn == dec_ecn(body[32])
             &&& (if is_batch { nz16_is(datagrams.segment_size, be16(body[33], body[34])) } else { datagrams.segment_size is None })
             &&& datagrams.contents@ == body.subrange(32 + (if is_batch { 3int } else { 1 }), body.len() as int)
+        }
+    }
+}
+
+// ---- round trip and limit agreement (lemmas over the contracts)
+// decoding the encoding gives the message back (keys: PublicKey values are valid points by construction)
+pub proof fn lemma_c2r_roundtrip(m: ClientToRelayMsg, got: ClientToRelayMsg)  // [C10]
+    requires c2r_decodes(enc_c2r(m), got), m matches ClientToRelayMsg::Datagrams { datagrams, .. } ==> datagrams.contents@.len() < 0x1000_0000
+    ensures
+        got is Ping == m is Ping, got is Pong == m is Pong, got is Datagrams == m is Datagrams,
+        m is Ping ==> got->Ping_0@ == m->Ping_0@,
+        m is Pong ==> got->Pong_0@ == m->Pong_0@,
+        m is Datagrams ==> ({
+            let gk = got->Datagrams_dst_endpoint_id; let gd = got->Datagrams_datagrams;
+            let k = m->Datagrams_dst_endpoint_id; let d = m->Datagrams_datagrams;
+            gk.b@ == k.b@ && gd.ecn == d.ecn && gd.contents@ == d.contents@
+            && (d.segment_size is None ==> gd.segment_size is None)
+            && (d.segment_size matches Some(s) ==> gd.segment_size matches Some(g) && g@ == s@)
+        }),
+{
+    let b = enc_c2r(m);
+    let body = b.subrange(1, b.len() as int);
+    assert(b[0] == (c2r_typ(m) as u32) as u8);
+    match m {
+        ClientToRelayMsg::Ping(d) => { assert(body =~= d@); }
+        ClientToRelayMsg::Pong(d) => { assert(body =~= d@); }
+        ClientToRelayMsg::Datagrams { dst_endpoint_id, datagrams } => {
+            let e = enc_dg(datagrams);
+            assert(body =~= dst_endpoint_id.b@ + e);
+            assert(body.subrange(0, 32) =~= dst_endpoint_id.b@);
+            assert(body.subrange(32, body.len() as int) =~= e);
+            let gd = got->Datagrams_datagrams;
+            let is_batch = datagrams.segment_size is Some;
+            assert(e[0] == body[32]);
+            if is_batch {
+                assert(e[1] == body[33] && e[2] == body[34]);
+                assert(e.subrange(3, e.len() as int) =~= body.subrange(35, body.len() as int));
+            } else {
+                assert(e.subrange(1, e.len() as int) =~= body.subrange(33, body.len() as int));
+            }
+            lemma_dg_roundtrip(datagrams, gd);
+        }
+    }
+}
+// any message the sending client's size check accepts (encoded length within MAX_PACKET_SIZE, non-empty batch,
+// destination key a valid point — true of every PublicKey value) is accepted by the relay's decoder
+pub proof fn lemma_sender_limit_implies_decoder_accepts(m: ClientToRelayMsg)  // [C10]
+    requires
+        enc_c2r(m).len() <= MAX_PACKET_SIZE,
+        m matches ClientToRelayMsg::Datagrams { dst_endpoint_id, datagrams } ==> valid_point(dst_endpoint_id.b@),
+    ensures c2r_accepts(enc_c2r(m))
+{
+    let b = enc_c2r(m);
+    let body = b.subrange(1, b.len() as int);
+    match m {
+        ClientToRelayMsg::Ping(d) => { assert(body =~= d@); }
+        ClientToRelayMsg::Pong(d) => { assert(body =~= d@); }
+        ClientToRelayMsg::Datagrams { dst_endpoint_id, datagrams } => {
+            assert(body =~= dst_endpoint_id.b@ + enc_dg(datagrams));
+            assert(body.subrange(0, 32) =~= dst_endpoint_id.b@);
         }
     }
 }
